@@ -437,7 +437,7 @@ def _sml_enum(ck, specs, props, agree=("InvAgreeParse",)):
 
 
 @check("C04", design_ref="4 C04, App. G",
-       technique="TLC model checking that the TLA+ parser model inverts the TLA+ printer model on a bounded scope; trace validation of real String() -> sml.Parse round trips of random expressible messages and of every message of accepted texts",
+       technique="TLC model checking that the TLA+ parser model inverts the TLA+ printer model on a bounded scope; TLC-enumerated messages replayed through the real factories, printer and parser; trace validation of real String() -> sml.Parse round trips of random expressible messages and of every message of accepted texts",
        text="For seeded random messages expressible in SML (every ASCII code in strings, boundary numbers, shortest-form floats, ASCII variables with "
             "all bound forms, nested numbered ellipses, adversarial names) and for every message the real parser returns for accepted texts, TLC checks "
             "that parsing the real printed form yields exactly one message, silently, with the same projection, variables, printed form (fixed point) "
@@ -448,7 +448,16 @@ def c04(ck):
                    "numbers, all ASCII-variable bound forms, variables, numbered ellipses, lists to depth 2, header corner cases and adversarial "
                    "names) printed by the printer model and parsed by the parser model; traces: random expressible messages (3 of 4 cases) and "
                    "messages of accepted plausible texts (1 of 4); non-trivial = message has an item; distinct by printed form")
-    _sml_models(ck, ["printparse"])
+    r = ck.model("MCPrintParse", "MCPrintParse", "MCPrintParse_%s.cfg" % ck.tier, timeout=q(ck, 600, 3000))
+    if not r.cases:
+        raise ToolError("MCPrintParse emitted no cases")
+    table = write_cases(ck, r.cases, "ppcases.ndjson")
+    # TLC -> Go: the model's messages built with the real factories, printed and parsed back (quick: every 8th)
+    ev = ck.trace("replay", "pp-replay", ["-in", table, "-n", q(ck, 8, 4)], "TraceSml", "TraceSml.cfg", ["InvC04", "InvC04x"], agree=["InvAgreeC04"],
+                  nontrivial=lambda e: e.get("orig", {}).get("item", {}).get("f") != "none", key=SML_KEY)
+    ck.replayed += len(ev)
+    if ck.violations:
+        return
     ck.trace("pp", "pp", ["-n", q(ck, 1200, 12000)], "TraceSml", "TraceSml.cfg", ["InvC04"], agree=["InvAgreeC04"],
              nontrivial=lambda e: e.get("orig", {}).get("item", {}).get("f") != "none", key=SML_KEY)
     ck.assumptions.append(SML_NOTE)
